@@ -34,10 +34,12 @@ pub struct Error { pub cause: ErrorCause, pub location: Location }
 pub open spec fn field_ids(s: Seq<Field>) -> Seq<int> { Seq::new(s.len(), |i: int| s[i].verif_id) }
 
 /// one execution of the body: the values assigned to the loop variable so far, the stack of frames it ran with, what came out
-pub struct BodyRun { pub assigned: Seq<int>, pub stack: Seq<Frame>, pub result: Result, pub status_after: ExitStatus }
+pub struct BodyRun { pub assigned: Seq<int>, pub stack: Seq<Frame>, pub result: Result, pub status_before: ExitStatus, pub status_after: ExitStatus }
 pub struct Mon {
     /// the values of the loop, as handed to the tracer (the expanded words, or the positional parameters)
     pub values: Option<Seq<int>>,
+    /// `$?` when the values were handed to the tracer (after the words were expanded, before anything of the loop ran)
+    pub values_status: Option<ExitStatus>,
     /// the values assigned to the loop variable so far (successful assignments only), in order
     pub assigned: Seq<int>,
     pub runs: Seq<BodyRun>,
@@ -73,7 +75,7 @@ pub fn verif_positional_fields<S>(env: &Env<S>, name: &Field) -> (r: Vec<Field>)
 /// tracing the values: records which values the loop is about to go through
 #[verifier::external_body]
 pub fn trace_values<S>(env: &mut Env<S>, name: &Field, values: &Vec<Field>)
-    ensures final(env).mon@ == (Mon { values: Some(field_ids(values@)), ..old(env).mon@ }), final(env).verif_stack@ == old(env).verif_stack@, final(env).exit_status == old(env).exit_status
+    ensures final(env).mon@ == (Mon { values: Some(field_ids(values@)), values_status: Some(old(env).exit_status), ..old(env).mon@ }), final(env).verif_stack@ == old(env).verif_stack@, final(env).exit_status == old(env).exit_status
 { unimplemented!() }
 /// `env.get_or_create_variable(name.value.clone(), Scope::Global)` followed by `.assign(value, origin)` (one helper call):
 /// a successful assignment is recorded
@@ -91,7 +93,7 @@ pub fn verif_next(rest: &mut Vec<Field>) -> (r: Option<Field>)
 impl List {
     #[verifier::external_body]
     pub fn execute<S>(&self, env: &mut Env<S>) -> (r: Result)
-        ensures final(env).mon@ == (Mon { runs: old(env).mon@.runs.push(BodyRun { assigned: old(env).mon@.assigned, stack: old(env).verif_stack@, result: r, status_after: final(env).exit_status }), ..old(env).mon@ }),
+        ensures final(env).mon@ == (Mon { runs: old(env).mon@.runs.push(BodyRun { assigned: old(env).mon@.assigned, stack: old(env).verif_stack@, result: r, status_before: old(env).exit_status, status_after: final(env).exit_status }), ..old(env).mon@ }),
             final(env).verif_stack@ == old(env).verif_stack@
     { unimplemented!() }
 }
